@@ -10,6 +10,8 @@ import (
 	"bufio"
 	"encoding/json"
 	"fmt"
+	"io"
+	"log"
 	"os"
 	"sort"
 	"strconv"
@@ -115,6 +117,9 @@ func ReadLines(path string, f func(line []byte)) {
 
 // Main dispatches to the registered sub-command.
 func Main() {
+	if os.Getenv("VERIF_LOG") == "" {
+		log.SetOutput(io.Discard) // qiloop logs every dropped message
+	}
 	if len(os.Args) < 2 {
 		names := []string{}
 		for n := range commands {
